@@ -4,6 +4,24 @@ HOOK_COMMITS = ["c101db8", "bbfdbf8", "afc22c3", "cec08e0", "3844b5e"]
 NOT_APPLICABLE = {}
 
 TEXT = {
+ "C01": dict(
+   engine="hv", design_ref="DESIGN.md 3.C01",
+   technique="runtime monitoring at the socket boundary: real endpoints vs an independent spec codec as raw peer (bytes, SCM_RIGHTS placement, fd identity), both directions",
+   level_text="Every message type of the four channels is driven through the real Frontend / BackendReqHandler / Backend proxy / FrontendReqHandler / GpuBackend against a raw peer that decodes with an independently written codec: header fields, payload bytes at spec offsets, descriptors on byte 0 only and their identity; spec-encoded messages are decoded by the crate and compared with what was encoded. Exploration over lattice+random field values, every config payload length, 1..=32 regions, NEED_REPLY/REPLY_ACK/LOG_SHMFD configurations.",
+   level_note="Trusted: common::spec transcription (codes, layouts); values the spec transcription could not source independently are listed in evidence.assumptions (PF bits 20/21, request 44, backend requests 9/10, VhostUserMMap/ShMemConfig layouts, empty GET_SHARED_OBJECT reply). Unknown protocol-feature bits and struct padding are not compared.",
+ ),
+ "C04": dict(
+   engine="hv", design_ref="DESIGN.md 3.C04",
+   technique="online trace checking: byte stream written by the real server decoded by the spec codec and compared with a reference protocol model replayed on the same request history; SIOCINQ probe for exact consumption",
+   level_text="Request histories (exhaustive over negotiation prefixes x full alphabet to a bounded depth, random to depth 16) are sent by a raw peer to the real BackendReqHandler with scripted handler success/failure; after every request everything the server wrote is drained and compared with the model's prediction (one reply / one ack with 0 iff success / nothing), header fields, in-band failure encodings, exact consumption, and reply pairing at history end.",
+   level_note="Trusted: the ~150-line reference model (c04::Model) written from the statement. Left open (observed only): ack on the very message that flips REPLY_ACK, answer to requests rejected before dispatch, unimplemented request codes.",
+ ),
+ "C07": dict(
+   engine="hv", design_ref="DESIGN.md 3.C07",
+   technique="runtime monitoring with exhaustive configuration enumeration: handler call log and peer byte counter per (feature subset / negotiation order, gated request)",
+   level_text="All 2^k subsets of the gating bits on both endpoints x every gated operation, and all negotiation orders to a bounded depth, are executed against the real endpoints; the oracle is the recording handler's call log (backend) and the number of bytes that reached the raw peer (frontend, proxy), with the gate table written from the statement.",
+   level_note="Trusted: the gate table. Interpretation: LOG_SHMFD gates the shmfd form of SET_LOG_BASE; device-state transfer is gated on the frontend only (as the statement says).",
+ ),
  "C20": dict(
    engine="hv", design_ref="DESIGN.md 3.C20",
    technique="runtime differential monitoring: crate validators executed on enumerated raw bit patterns vs an independent reference predicate; Miri on a sub-lattice",
